@@ -46,8 +46,11 @@ type c11Case struct {
 	Grpc    bool   `json:"grpc,omitempty"` // drive the gRPC StreamingPull handler (services) instead of actions.MessageStreamer
 	// the client acknowledges (unary Acknowledge) each of the first AckInSend messages while the server is
 	// still inside the Send that delivers it
-	AckInSend int         `json:"ack_in_send,omitempty"`
-	Actions   []c11Action `json:"actions"`
+	AckInSend int `json:"ack_in_send,omitempty"`
+	// the subscription is deleted and created again under the same name before the stream is opened
+	// (the deleted row is still in the table: nothing has pruned it)
+	Recreate bool        `json:"recreate,omitempty"`
+	Actions  []c11Action `json:"actions"`
 }
 
 type c11Replay struct {
@@ -203,7 +206,8 @@ type c11Result struct {
 	evs            []string    // model events
 	batches        []string    // ids (model numbering) sent per non-empty query, in order
 	sentTotal      int
-	completed      int // deliveries of the subscription that are completed when the case ends
+	streamErr      string // the error the stream ended with before the case was over ("" = still open)
+	completed      int    // deliveries of the subscription that are completed when the case ends
 	spins          int
 	queries        int
 }
@@ -217,10 +221,17 @@ func c11Run(t *testing.T, seed int64, cs c11Case, known map[string]bool) *c11Res
 		for _, op := range []Op{{K: "create_topic", Topic: "t"}, {K: "create_sub", Sub: "s", Cfg: cfg}} {
 			w.Exec(op)
 		}
+		if cs.Recreate {
+			w.Exec(Op{K: "delete_sub", Sub: "s"})
+			time.Sleep(time.Second)
+			w.Exec(Op{K: "create_sub", Sub: "s", Cfg: cfg})
+		}
 		w.Dump()
 		var subID uuid.UUID
 		for _, row := range w.lastSubs {
-			subID = row.ID
+			if row.DeletedAt == nil {
+				subID = row.ID
+			}
 		}
 		w.Ctl.mu.Lock()
 		w.Ctl.tick = 0
@@ -517,6 +528,12 @@ func c11Run(t *testing.T, seed int64, cs c11Case, known map[string]bool) *c11Res
 			}
 		}
 		res.sentTotal = len(conn.sent)
+		select {
+		case err := <-fin:
+			res.streamErr = fmt.Sprint(err)
+			fin <- err
+		default:
+		}
 		if n, err := w.Client.Delivery.Query().Where(delivery.SubscriptionID(subID), delivery.CompletedAtNotNil()).Count(qctx); err == nil {
 			res.completed = n
 		}
